@@ -155,6 +155,10 @@ class Frame(ABC):
 
     def assign_to(self, device: PhysicalDevice) -> None:
         """Assign device to the frame."""
+        if self._handler is not device and self._message is not None:
+            # Decoding can depend on the device, so decode again.
+            self._data = None
+
         self._handler = device
 
     @property
